@@ -29,8 +29,8 @@ namespace {
             FE[i] = lx.make_literal(lx.int_type(), spell[i % 48]); FL[i] = &lx.get_linkage(spell[i % 48]);
          }
       }
-      explicit World(int pre = 0) {
-         make_fillers(0, pre);
+      explicit World(int pre = -1) {        // fillers only for the harnesses that ask for them (they enlarge every table)
+         const bool fill = pre >= 0; if (fill) make_fillers(0, pre);
          T[0] = &lx.int_type(); T[1] = lx.make_class(*unit.global_region()); T[2] = &lx.get_pointer(lx.bool_type());
          vp_sort_by_address(T, 3);
          E[0] = &lx.false_value(); E[1] = &lx.true_value(); E[2] = lx.make_literal(lx.int_type(), u8"3");
@@ -40,7 +40,7 @@ namespace {
          S[0] = &lx.get_sum(w1); S[1] = &lx.get_sum(w2); vp_sort_by_address(S, 2);
          L[0] = &lx.cxx_linkage(); L[1] = &lx.c_linkage(); L[2] = &lx.get_linkage(u8"Zed");
          C[0] = &lx.get_calling_convention(u8""); C[1] = &lx.get_calling_convention(u8"fastcall");
-         make_fillers(pre, NF);
+         if (fill) make_fillers(pre, NF);
       }
       // one concrete request per table for filler i (deterministic: nothing symbolic, so it costs instructions only)
       void bulk_one(int i, const void** out) {
@@ -195,7 +195,7 @@ extern "C" void h_order_lemmas(void) {
       vp_assert((c[i][j] == 0) == same_args(r[i], r[j]), 30);
       vp_assert(sgn(c[i][j]) == -sgn(c[j][i]), 31);
    }
-   if (c[0][1] != 2 && c[1][2] != 2 && c[0][2] != 2 && c[0][1] < 0 && c[1][2] < 0) vp_assert(c[0][2] < 0, 32);
+   if (c[0][1] != 2 && c[1][2] != 2 && c[0][2] != 2) vp_assert(!(c[0][1] < 0 && c[1][2] < 0) || c[0][2] < 0, 32);      // evaluated on every path (the order of process-wide constants differs between the engine and the native build)
    vp_done();
 }
 // (2b) requests separated by bulk insertions that rebalance every lookup tree: C01_FILL/2 concrete requests to every table,
